@@ -1,4 +1,4 @@
-CONSTANTS MaxLive = 3  Configs = {<<6,2>>, <<6,3>>, <<7,2>>, <<7,3>>}  Alphabet = "full"  D = 60  EmitAll = TRUE
+CONSTANTS MaxLive = 3  Configs = {62, 63, 72, 73}  Alphabet = "full"  D = 60  EmitAll = TRUE
 SPECIFICATION GSpec
 VIEW View
 CHECK_DEADLOCK FALSE
